@@ -12,7 +12,7 @@ import (
 
 func init() {
 	props["C14"] = &propCheck{
-		lean: []string{"JSight.Props.C14"},
+		lean: []string{"JSight.Props.C14", "JSight.Props.C14_Trivia"},
 		exes: []string{"jsight-scan"},
 		run:  runC14,
 		rule: "all sequences up to the length bound over a 66-token alphabet (every keyword, every delimiter, representative parameters and bodies, CR, TAB, NUL, 0xff), all fixture .jst files and byte-level mutants of them; non-trivial = the scanner emits at least 2 lexemes; distinct = distinct input bytes",
